@@ -31,6 +31,7 @@ fn table(id: &str) -> Option<(RunFn, CheckFn)> {
         "C07" => Some((props::c07::run, props::c07::check_case)),
         "C08" => Some((props::c08::run, props::c08::check_case)),
         "C09" => Some((props::c09::run, props::c09::check_case)),
+        "C10" => Some((props::c10::run, props::c10::check_case)),
         "C11" => Some((props::c11::run, props::c11::check_case)),
         "C12" => Some((props::c12::run, props::c12::check_case)),
         "C14" => Some((props::c14::run, props::c14::check_case)),
